@@ -112,13 +112,13 @@ func (h *heartbeatManager) checkSessions() {
 	h.primary.mu.RUnlock()
 
 	for id, session := range sessions {
-		// Skip already disconnected sessions
-		if !session.Connected || !session.Active {
-			continue
-		}
-
 		// Check if session has timed out
 		session.mu.Lock()
+		// Skip already disconnected sessions
+		if !session.Connected || !session.Active {
+			session.mu.Unlock()
+			continue
+		}
 		lastActivity := session.LastActivity
 		if now.Sub(lastActivity) > h.config.Timeout {
 			log.Warn("Session %s timed out after %.1fs of inactivity",
@@ -164,7 +164,7 @@ func (h *heartbeatManager) checkSessions() {
 // pingSession sends a single heartbeat ping to a specific session
 func (h *heartbeatManager) pingSession(sessionID string) bool {
 	session := h.primary.getSession(sessionID)
-	if session == nil || !session.Connected || !session.Active {
+	if session == nil || !session.live() {
 		return false
 	}
 
